@@ -227,6 +227,7 @@ def replay_case(st, case_line, judge):
 
 
 DRIVERS = {
+    'text_all': {'src': 'drv_text.cpp', 'flags': []},
     'blocks_p0': {'src': 'drv_blocks.cpp', 'flags': ['-DPART=0']},
     'blocks_p1': {'src': 'drv_blocks.cpp', 'flags': ['-DPART=1']},
     'blocks_p2': {'src': 'drv_blocks.cpp', 'flags': ['-DPART=2']},
@@ -372,6 +373,19 @@ def blk(name, part, group, q, t, mode='rnd'):
 
 
 PLANS = {
+    'C16': {
+        'level': 'proof', 'coq': 'Properties_C16',
+        'rule': 'every encoding of the small configurations (posit 4..12 bits, cfloat 8..12, fixpnt 4..12, integer 4..12) and structured samples of the '
+                'large ones (up to 128 bits, widths that are not multiples of 4 / 8 included): posit hex_format -> parse and operator>>, cfloat '
+                'to_binary -> assign, fixpnt to_binary -> assign, integer hex and decimal strings -> parse must return the same encoding; decimal '
+                'output of integer and fixpnt is compared byte by byte with the exact expansion; random decimal / hexadecimal digit strings up to the '
+                'capacity of the type (+1 digit) must parse to that integer mod 2^nbits. non-trivial = all; distinct = distinct lines',
+        'assumptions': ['einteger/edecimal decimal output is covered by C14'],
+        'streams': [{'name': 'text_exh', 'driver': 'text_all', 'what': 'text forms, every encoding of the small configurations', 'exhaustive': {'quick': True, 'thorough': True},
+                     'runs': {'quick': [dict(args=['--mode', 'exh'], shards=8)], 'thorough': [dict(args=['--mode', 'exh'], shards=8)]}},
+                    {'name': 'text_rnd', 'driver': 'text_all', 'what': 'text forms, structured samples of the large configurations',
+                     'runs': {'quick': [dict(args=['--mode', 'rnd', '--count', '2000'], shards=16)], 'thorough': [dict(args=['--mode', 'rnd', '--count', '50000'], shards=16)]}}],
+    },
     'C12': {
         'level': 'translation_validation', 'coq': 'Properties_C12',
         'rule': 'for integer, fixpnt (Modulo and Saturate), cfloat (two flag combinations), lns and areal at sizes around every block boundary '
